@@ -55,7 +55,7 @@ CHECKS = {
             'm x n parties x queue bounds x rounds separated by renew (optionally with next-round puts and late consumers before renew) x owned schedules incl. line-granular preemption inside queue.py; stop requests at generated virtual moments'),
     'C18': ('exploration', 'property-based testing (Hypothesis): framing round trip write_record -> generated chunking -> read_record (pure), and generated request sets / handler latencies / connection counts / payload sizes / impatient callers / request-id allocator bits (legal id() stand-in that recycles freed ids) against a real unix-socket server and real FIFOs; oracle: payload equality at handler and requester, response token == request token, exception class/args/remote traceback, stream and pipe order', REAL_NOTE,
             'generated payloads (newlines, header look-alikes, empty, multi-megabyte, nested) x chunk boundaries; concurrent tokenised requests over 1-4 connections with generated latencies, staggered bursts of 40-120 requests, impatient callers, handlers failing with their own or with transport-typed exceptions; FIFO object sequences in both directions'),
-    'C20': ('exploration', T_REAL + 'a collecting handler on the parent root logger must hold exactly the emitted records that pass the parent levels, once each, in emission order; join()/result() must return (watchdog, 3x rule)', REAL_NOTE,
+    'C20': ('exploration', T_REAL + 'a collecting handler on the parent root logger must hold exactly the emitted records that pass the parent levels in force at the time (generated root and named-logger levels, optionally changed once while the child runs), once each, in emission order; join()/result() must return (watchdog, 3x rule)', REAL_NOTE,
             'generated record counts (0-2000) and sizes (1 B-64 kB), logger names/levels, position of the last record, target endings, parent handler speed; Process / ProcessServlet worker / ProcessPoolExecutor; records still unhandled when result() returns'),
     'C19': ('exploration', T_SIM + 'validity predicates over the (virtual time, batch) log: partition, sizes, exact deadline rule with stall budget 0', SIM_NOTE,
             'generated arrival-time sequences x batch_size x wait x marker kind x schedules; timing checked exactly in virtual time'),
